@@ -251,6 +251,7 @@ type phase struct {
 	threads  [][]command // one command list per goroutine
 	keys     []string    // every key the phase may touch (for the quiescent EXISTS sweep)
 	yield    int
+	tier     string
 	nolog    bool // focused stress: no lock log, so that the commands run back to back
 	watchdog time.Duration
 }
@@ -712,7 +713,9 @@ func runPhase(ph phase, outdir string, tcp bool) (status string, err error) {
 	}
 	defer closeAll()
 
+	var prog progress
 	runOne := func(thread, slot, seq int, c command) {
+		defer prog.tick()
 		if !ph.nolog {
 			memdb.VerifLockMark(seq)
 		}
@@ -760,15 +763,7 @@ func runPhase(ph phase, outdir string, tcp bool) (status string, err error) {
 	done := make(chan struct{})
 	go func() { wg.Wait(); close(done) }()
 	close(start)
-	status = "OK"
-	select {
-	case <-done:
-	case <-time.After(ph.watchdog):
-		status = "HANG"
-		buf := make([]byte, 1<<22)
-		n := runtime.Stack(buf, true)
-		os.WriteFile(filepath.Join(dir, "hang.txt"), buf[:n], 0o644)
-	}
+	status = awaitDone(done, &prog, dir, ph.tier)
 	memdb.VerifLockLog(false, 0)
 	logs := memdb.VerifLockTake()
 
@@ -1121,10 +1116,7 @@ func concCmd(args []string) error {
 		}
 		ph.yield = 3
 		ph.nolog = len(focus) > 0
-		ph.watchdog = 40 * time.Second
-		if tier == "thorough" {
-			ph.watchdog = 180 * time.Second
-		}
+		ph.tier = tier
 		st, err := runPhase(ph, outdir, tcp)
 		if err != nil {
 			return err
@@ -1146,7 +1138,7 @@ func concCmd(args []string) error {
 		if v, err := strconv.Atoi(os.Getenv("VERIF_CONC_ROUNDS")); err == nil && v > 0 {
 			rounds = v
 		}
-		st, screened, err := runPairs(r, rounds, outdir, skip, focus, 120*time.Second)
+		st, screened, err := runPairs(r, rounds, outdir, skip, focus, tier)
 		if err != nil {
 			return err
 		}
